@@ -628,6 +628,51 @@ def glom_options(ctx):
     hs = [h for h in cfg.nodes if h.kind == 'handler']
     ctx.ob(any(is_name(h.ast.type, sv) for h in hs), u, 'the inner handler catches exactly the skip_exc option')
     dbg = [t for t in cfg.nodes if t.kind == 'test' and is_name(t.ast, gv)]
-    ok = len(dbg) == 1 and any(isinstance(s_.ast, ast.Raise) and s_.ast.exc is None for s_, lab in dbg[0].succ if lab == 'true')
+    def reraises(r):
+        if not isinstance(r, ast.Raise) or r.cause is not None:
+            return False
+        hn = [a.name for a in ancestors(r) if isinstance(a, ast.ExceptHandler)]
+        return r.exc is None or (hn and is_name(r.exc, hn[0]))
+    ok = len(dbg) == 1 and any(reraises(s_.ast) for s_, lab in dbg[0].succ if lab == 'true')
     ctx.ob(ok, u, 'only debug mode re-raises the raw exception (no translation, no trace)')
     ctx.floor(7)
+
+
+# the documented conversions of the T interpreter: what a failing primitive may be turned
+# into a PathAccessError for.  Anything else raised there keeps its class.
+CONVERTED = {
+    'getattr': {'AttributeError'},
+    'getitem': {'KeyError', 'IndexError', 'TypeError'},
+    'arith': {'TypeError', 'ZeroDivisionError'},
+}
+
+
+@rule('C04.18')
+def conversions_not_wider(ctx):
+    """a failing attribute / item / arithmetic step is converted to PathAccessError for its miss
+    classes only: a handler that names a wider class (ArithmeticError, LookupError, Exception)
+    turns e.g. an OverflowError into a GlomError that `except OverflowError` no longer matches
+    and that default= swallows"""
+    from .c01 import model, find_primitives, pae_constructions
+    from ..util import class_names_of_handler
+    m, w = model(ctx)
+    cfg, u = m.cfg, m.unit
+    per = {}
+    for kind, node, expr in find_primitives(ctx, m):
+        for h in cfg.handlers_reached_from(node):
+            per.setdefault(h, set()).add(kind)
+    n = 0
+    for h, kinds in per.items():
+        if not kinds <= set(CONVERTED):
+            continue          # a registered handler may fail with anything
+        body = set(handler_body_nodes(cfg, h))
+        if not any(cfg.node_containing(c) in body for c in pae_constructions(ctx, u)):
+            continue
+        allowed = set().union(*(CONVERTED[k] for k in kinds))
+        names = set(class_names_of_handler(cfg, h))
+        extra = sorted(names - allowed)
+        n += 1
+        ctx.ob(not extra, u, 'the %s step converts only its miss classes %s: except %s' % ('/'.join(sorted(kinds)), sorted(allowed), sorted(names)),
+               '' if not extra else '%s raised by the operand would leave glom() as a PathAccessError' % extra, node=h.ast)
+    ctx.require(n >= 3, 'conversion handlers of the T interpreter not found (%d)' % n)
+    ctx.floor(3)
